@@ -38,9 +38,9 @@ pub fn observe(rec: &mut Recorder, pieces: &[Vec<Vec<u8>>]) {
 
 pub fn run(rec: &mut Recorder, thorough: bool, seed: u64) {
     let mut rng = Prng::new(seed, "c15");
-    // exhaustive small structure: piece counts 0..8, fragment counts 0..4, tiny contents
+    // exhaustive small structure: piece counts 0..8, fragment counts 0..7, tiny contents
     for n in 0..=8usize {
-        for nf in 0..=4usize {
+        for nf in 0..=7usize {
             for flen in [0usize, 1, 2] {
                 let pieces: Vec<Vec<Vec<u8>>> = (0..n)
                     .map(|i| (0..nf).map(|j| vec![(16 * i + j) as u8; if (i + j) % 2 == 0 { flen } else { 1 }]).collect())
@@ -76,7 +76,7 @@ pub fn run(rec: &mut Recorder, thorough: bool, seed: u64) {
         let n = if r < 9 { r } else { rng.below(9) };
         let pieces: Vec<Vec<Vec<u8>>> = (0..n)
             .map(|_| {
-                let nf = rng.below(5);
+                let nf = rng.below(9);
                 (0..nf)
                     .map(|_| {
                         let l = if rng.chance(2, 3) { *rng.pick(&lens[..5]) } else if rng.chance(1, 2) { *rng.pick(&lens) } else { rng.below(40) };
